@@ -380,9 +380,45 @@ class _Normal(ast.NodeTransformer):
         return n
 
     NEG = {ast.IsNot: ast.Is, ast.NotEq: ast.Eq, ast.NotIn: ast.In}
+    POS = {ast.Is: ast.IsNot, ast.Eq: ast.NotEq, ast.In: ast.NotIn}
+
+    def _negate(self, e):
+        """(negation of e, number of negative atoms in it)"""
+        if isinstance(e, ast.UnaryOp) and isinstance(e.op, ast.Not):
+            return e.operand, self._negatives(e.operand)
+        if isinstance(e, ast.Compare) and len(e.ops) == 1 and \
+                type(e.ops[0]) in self.NEG:
+            return ast.Compare(e.left, [self.NEG[type(e.ops[0])]()],
+                               e.comparators), 0
+        if isinstance(e, ast.Compare) and len(e.ops) == 1 and \
+                type(e.ops[0]) in self.POS:
+            return ast.Compare(e.left, [self.POS[type(e.ops[0])]()],
+                               e.comparators), 1
+        if isinstance(e, ast.BoolOp):
+            parts = [self._negate(v) for v in e.values]
+            op = ast.Or() if isinstance(e.op, ast.And) else ast.And()
+            return ast.BoolOp(op, [p[0] for p in parts]), \
+                sum(p[1] for p in parts)
+        return ast.UnaryOp(ast.Not(), e), 1 + self._negatives(e)
+
+    def _negatives(self, e):
+        if isinstance(e, ast.UnaryOp) and isinstance(e.op, ast.Not):
+            return 1 + self._negatives(e.operand)
+        if isinstance(e, ast.Compare) and len(e.ops) == 1 and \
+                type(e.ops[0]) in self.NEG:
+            return 1
+        if isinstance(e, ast.BoolOp):
+            return sum(self._negatives(v) for v in e.values)
+        return 0
 
     def visit_If(self, n):
         self.generic_visit(n)
+        if n.orelse and isinstance(n.test, ast.BoolOp):
+            # De Morgan: the spelling with fewer negations, arms exchanged
+            neg, k = self._negate(n.test)
+            if k < self._negatives(n.test):
+                n.test = neg
+                n.body, n.orelse = n.orelse, n.body
         if n.orelse:
             while True:
                 if isinstance(n.test, ast.UnaryOp) and \
@@ -396,6 +432,16 @@ class _Normal(ast.NodeTransformer):
                     break
                 n.body, n.orelse = n.orelse, n.body
         return n
+
+
+class _NormalIf(ast.NodeTransformer):
+    """only the orientation of two-armed ifs (used before locals are renamed
+    in order of appearance)"""
+    NEG = _Normal.NEG
+    POS = _Normal.POS
+    _negate = _Normal._negate
+    _negatives = _Normal._negatives
+    visit_If = _Normal.visit_If
 
 
 _JUMPS = (ast.Return, ast.Raise, ast.Continue, ast.Break)
@@ -552,11 +598,25 @@ def operators_plain(modules):
     return bad
 
 
+def _scope(rel, tree, cls, table):
+    from . import equiv
+
+    def is_new(cn, name):
+        if table is None:
+            return False
+        k = f'{rel}::{cn or ""}::{name}::' + ('m0' if cn else 'f')
+        return k not in table
+    return equiv.Scope(tree, cls, is_new)
+
+
 def build_fn_table(modules):
+    from . import equiv
     table = {}
     for rel, tree in modules.items():
         for key, fn in iter_functions(rel, tree):
-            table[key] = [normal_form(fn), ast.unparse(fn)]
+            cls = key.split('::')[1] or None
+            d2, _ = equiv.normal_form2(fn, _scope(rel, tree, cls, None))
+            table[key] = [normal_form(fn), ast.unparse(fn), d2]
     return table
 
 
@@ -583,7 +643,8 @@ def reference_tests():
     global _REF_TESTS
     if _REF_TESTS is None:
         out = set()
-        for key, (h, src) in load_fn_table().items():
+        for key, ent in load_fn_table().items():
+            src = ent[1]
             for n in ast.walk(ast.parse(src)):
                 if isinstance(n, (ast.If, ast.While, ast.IfExp)):
                     out.add(' '.join(ast.unparse(n.test).split()))
@@ -613,10 +674,20 @@ def restore_idioms(rel, tree):
     def consider(container, i, key, fn):
         nonlocal n
         ref = ft.get(key)
-        if not ref or normal_form(fn) != ref[0]:
+        if not ref:
             return
         if ast.unparse(fn) == ref[1]:
             return
+        if normal_form(fn) != ref[0]:
+            # second normal form: helpers the reference tree does not have
+            # inlined, temporaries substituted, constant tables unrolled
+            if len(ref) < 3 or ref[2] is None:
+                return
+            from . import equiv
+            cls = key.split('::')[1] or None
+            d2, _ = equiv.normal_form2(fn, _scope(rel, tree, cls, ft))
+            if d2 is None or d2 != ref[2]:
+                return
         new = ast.parse(ref[1]).body[0]
         ast.increment_lineno(new, fn.lineno - 1)
         container[i] = new
@@ -633,7 +704,49 @@ def restore_idioms(rel, tree):
                     seen[m.name] = k + 1
                     consider(node.body, j,
                              func_key(rel, node.name, m, f'm{k}'), m)
+    if n:
+        _drop_dead_helpers(rel, tree, ft)
     return n
+
+
+def _drop_dead_helpers(rel, tree, ft):
+    """private functions / methods that the reference tree does not have and
+    that nothing in the module mentions any more (their callers were restored
+    to the reference spelling) are removed, with class- or module-level
+    constants that only they used"""
+    for _ in range(3):
+        mentioned = {}
+        for x in ast.walk(tree):
+            nm = x.attr if isinstance(x, ast.Attribute) else (
+                x.id if isinstance(x, ast.Name) else None)
+            if nm is not None:
+                mentioned[nm] = mentioned.get(nm, 0) + 1
+            elif isinstance(x, ast.Constant) and isinstance(x.value, str):
+                mentioned[x.value] = mentioned.get(x.value, 0) + 1
+        dropped = False
+        for owner, cls in [(tree, None)] + [
+                (c, c.name) for c in tree.body if isinstance(c, ast.ClassDef)]:
+            keep = []
+            for m in owner.body:
+                if isinstance(m, ast.FunctionDef) and m.name.startswith('_') \
+                        and not m.name.startswith('__') and \
+                        func_key(rel, cls, m, 'm0' if cls else 'f') not in ft \
+                        and not mentioned.get(m.name):
+                    dropped = True
+                    continue
+                if isinstance(m, ast.Assign) and len(m.targets) == 1 and \
+                        isinstance(m.targets[0], ast.Name) and \
+                        m.targets[0].id.startswith('_') and \
+                        mentioned.get(m.targets[0].id, 0) <= 1 and \
+                        m.targets[0].id.lstrip('_').isupper():
+                    # a private constant nobody reads (the Store is the one
+                    # mention)
+                    dropped = True
+                    continue
+                keep.append(m)
+            owner.body[:] = keep or [ast.Pass()]
+        if not dropped:
+            break
 
 
 def canonicalise(rel, tree, table=None, src=None):
